@@ -478,9 +478,15 @@ def _group(tlist, cls, match,
 
     tidx_offset = 0
     pidx, prev_ = None, None
+    absorbed_to = -1  # position (in the copy) of the last token moved into a group
     for idx, token in enumerate(list(tlist)):
         tidx = idx - tidx_offset
         if tidx < 0:  # tidx shouldn't get negative
+            continue
+
+        if idx < absorbed_to:
+            # this token already sits inside the group built last, its
+            # position in tlist is stale
             continue
 
         if token.is_whitespace:
@@ -500,6 +506,7 @@ def _group(tlist, cls, match,
                                              extend=extend)
 
                     tidx_offset += to_idx - from_idx
+                    absorbed_to = idx + (to_idx - tidx)
                     pidx, prev_ = from_idx, grp
                     continue
 
